@@ -204,6 +204,7 @@ fn rec_other_phases_and_rto() {
         (1, RecoveryPhase::IgnoringUntilRecoveryPoint { recovery_point }) => assert!(recovery_point == point, "C06: an RTO does not move an existing recovery point"),
         _ => assert!(false, "C06: RTO only leaves the Recovering phase"),
     }
+    kani::cover!(true, "end of harness reachable (assumptions satisfiable, no unconditional failure)");
 }
 
 // @verif id=REC.three props=C06 tier=quick timeout=900
@@ -240,4 +241,5 @@ fn rec_three_duplicates_from_fresh() {
     }
     assert!(r.is_recovering() == !update_in_between, "C06: three duplicate ACKs trigger fast retransmit; a window update resets the count");
     std::mem::forget(segs);
+    kani::cover!(true, "end of harness reachable (assumptions satisfiable, no unconditional failure)");
 }
